@@ -112,12 +112,27 @@ package parsepasses
 //@   noterm
 //@   modifies *
 //@   ensures[loop-variables-restored;C07] len(tc.forVars) == old(len(tc.forVars))
+//@   ghost visited int = 0
+//@   ghost nchildren int = -1
+//@   at call ast.ParentNode.Children#0 assert[the-node's-own-children;C07] arg0 == parent
+//@   at call ast.ParentNode.Children#0 after set nchildren = len(res)
+//@   at call (*templateChecker).checkTemplate#0 after set visited = visited + 1
+//@   ensures[every-child-checked;C07] visited == nchildren
+//@   loop 0
+//@     invariant[children-checked-so-far;C07] visited == rangeindex + 1 && visited <= nchildren
+// the rules are checked on every node of the template: whatever the kind of a
+// node, if it has children (a loop has three: list, body, {ifempty}) they are
+// all checked (recurse), so nothing in any branch escapes the pass.
 //@ func (*templateChecker).checkTemplate
 //@   props C07
 //@   nosafety
 //@   noterm
 //@   modifies *
 //@   ensures[loop-variable-leaves-scope-with-its-loop;C07] len(tc.forVars) == old(len(tc.forVars))
+//@   ghost rec bool = false
+//@   at call (*templateChecker).recurse#0 assert[descends-into-this-node;C07] arg0 == tc && arg1 == node
+//@   at call (*templateChecker).recurse#0 after set rec = true
+//@   ensures[every-node-with-children-is-descended-into;C07] implements(node, ast.ParentNode) ==> rec
 
 // every template of the registry goes through the globals pass; the first
 // failure ends it with an error.
